@@ -185,6 +185,8 @@ func cmdHTTPTab(args []string) {
 				}()
 				var m z.ZogIssueMap
 				req := buildRequest(r)
+				// the recycled objects this call receives are dirty (an earlier call caught, formatted, collected ...)
+				runPrelude(n)
 				var dt reflect.Type
 				switch {
 				case !suffix && r.Pname == "t":
